@@ -17,9 +17,11 @@ def run(ctx):
         cases=("CasesC18.v", [("c18_mismatches", "VALUE attribute of the hidden INPUT in served pages = html_escape(ensureHTMLSafeLoginDestination(dest))"),
                              ("c18_failure_mismatches", "writeFailureResponse = failure_response of the model: declared type, body bytes, rendered-as-document verdict", "CasesC18f.idx"),
                              ("c18_escaper_mismatches", "html/template's rendering of a field in text / quoted-attribute / unquoted-attribute context = render_field of the model", "CasesC18e.idx"),
-                             ("c18_attr_mismatches", "the raw attribute value an HTML tokenizer reads (attr_read of the model) is the whole rendered field: hidden INPUT, second-factor pages with nested canaries, html/template quoted / unquoted renderings", "CasesC18a.idx")], "CasesC18.idx"),
+                             ("c18_attr_mismatches", "the raw attribute value an HTML tokenizer reads (attr_read of the model) is the whole rendered field: hidden INPUT, second-factor pages with nested canaries, html/template quoted / unquoted renderings", "CasesC18a.idx"),
+                             ("c18_part_mismatches", "wrapped probes: wherever a rendering of the inner payload stands inside an attribute value of a served page, the value the tokenizer reads does not end inside it (c18_part_quoted_inert, c18_quoted_value, c18_unquoted_value)", "CasesC18p.idx")], "CasesC18.idx"),
         env=henv,
-        violating=[("c18_violating", "request-text-ends-attribute-value", "CasesC18a.idx")],
+        violating=[("c18_violating", "request-text-ends-attribute-value", "CasesC18a.idx"),
+                   ("c18_part_violating", "request-text-part-ends-attribute-value", "CasesC18p.idx")],
         trusted=["html/template: that it recognises the context of a field as tools/extract/c18_contexts.go does (the escapers of the text, quoted and unquoted attribute contexts themselves are modelled and compared byte for byte); its URL filter/normaliser and the script/style/CSS escapers (no field of the current templates needs them)",
                  "golang.org/x/net/html tokenizer as the HTML5 parser of the oracle",
                  "tools/extract: table of conversions to template.HTML and friends"],
